@@ -411,8 +411,9 @@ class Run:
         ev = dict(property_id=self.pid, tier=self.tier, seed=self.seed, level=self.level, coverage=cov,
                   assumptions=self.assumptions, wall_s=round(time.time() - self.t0, 2),
                   violations=len(self.violations))
-        (VERIF / 'evidence').mkdir(exist_ok=True)
-        (VERIF / 'evidence' / f'{self.pid}.json').write_text(json.dumps(ev, indent=1, default=str))
+        evdir = Path(os.environ.get('VERIF_EVIDENCE_DIR') or (VERIF / 'evidence'))   # seeded-change trials write elsewhere
+        evdir.mkdir(exist_ok=True, parents=True)
+        (evdir / f'{self.pid}.json').write_text(json.dumps(ev, indent=1, default=str))
         return 1 if self.violations else 0
 
 
